@@ -2803,6 +2803,8 @@ class Norm:
 
         def interp(expr, info):
             st = self._t(expr)
+            if (info or {}).get("rep") and st[0] == "call" and st[1] == "Iterator::collect" and len(st[2]) == 1:
+                st = st[2][0]       # `#( #xs )*` walks what it is given: a collected Vec and the iterator it was collected from give the same tokens
             if st[0] == "tpl" and st[1] == "quote" and not (info or {}).get("rep"):
                 # a token stream built by another quote! and interpolated as a whole: its tokens stand in its place
                 base = len(slots)
